@@ -261,13 +261,18 @@ call.last_message = None
 def compare_res(ctx, name, out, mres, case, scale, theorem, sig, prop_value=True):
     """compare implementation outcome with the model's Res / error"""
     if out[0] == "err":
-        ctx.point(name + ".error", "property", out[1], mres.get("error"), case, exact=True, sig=sig + "/error", theorem=theorem)
+        if "error" in mres:  # refused by both: WHICH exception is raised is not constrained by the property
+            ctx.count(f"{name}: refused by implementation and model (" + ("same error kind" if out[1] == mres["error"] else "other error kind") + ")")
+            return
+        ctx.point(name + ".error", "property", out[1], None, case, exact=True, sig=sig + "/error", theorem=theorem)
         return
     if "error" in mres:
         ctx.point(name + ".error", "property", None, mres["error"], case, exact=True, sig=sig + "/error", theorem=theorem)
         return
     ctx.point(name, "property" if prop_value else "aux", [out[1]], unbits([mres["val"]]), case, scale=scale, theorem=theorem, sig=sig)
-    ctx.point(name + ".kind", "property", out[2], mres["kind"], case, exact=True, sig=sig + "/kind", theorem=THEOREMS["kind"])
+    # "returns a plain real number": the verdict is the kind oracle of every case (Python float or numpy float64: IsNumber of QV/Props/C10.lean accepts
+    # both); WHICH of the two a code path returns is not constrained (`float(x)` around a return is harmless) -> informational counter
+    ctx.count(f"{name}: return kind " + ("agrees with the model's Kind" if out[2] == mres["kind"] else f"differs from the model's Kind (impl {out[2]}, model {mres['kind']})"))
 
 
 POS_SIG = "PositiveWaveFunction/rotated-bases/AttributeError-unitary_dict"
@@ -343,6 +348,13 @@ def same(a, b):
     return a is b or (type(a) is type(b) and a == b)
 
 
+BOOK = []  # deviations of the MetricEvaluator's bookkeeping seen while a metric was evaluated through it (C17's subject; counters only)
+
+
+def book(msg):
+    BOOK.append(msg)
+
+
 EPOCH_FORMS_FOR_TENSOR_PERIOD = tuple(f for f in qc.INT_FORMS if f != "np0d")  # `np.array(e) % torch.tensor(p)` is a TypeError of numpy / torch
 
 
@@ -358,9 +370,9 @@ def evaluate_through_callback(fn, st, call, n, main_name, main, kw, A):
     if plain(A):
         me = MetricEvaluator(period, {"m": fn}, **{main_name: main}, **kw, **others, **JUNK)
         me.on_epoch_end(st, epoch)
-        if len(me) != 1 or me.get_value("m") is not me.last["m"] or list(me.epochs) != [epoch]:
-            raise AssertionError("MetricEvaluator bookkeeping")
-        return me.last["m"]
+        if len(me) != 1 or "m" not in me.last or not same(me.get_value("m"), me.last["m"]) or list(me.epochs) != [epoch]:
+            book("MetricEvaluator bookkeeping (plain forms)")
+        return me.last["m"] if "m" in me.last else fn(st, **{main_name: main}, **kw)
     # integer `period` / `epoch` / `index` and boolean `verbose` in the case's forms (verbose: keyword or third positional); what a true
     # `verbose` prints is not constrained by the property (stdout is swallowed)
     po, pd = A.i_desc(period)
@@ -374,7 +386,7 @@ def evaluate_through_callback(fn, st, call, n, main_name, main, kw, A):
             off = epoch + 1 + A.choice(range(period - 1))
             me.on_epoch_end(st, A.i(off, eforms))
             if len(me) != 0 or me.last != {}:
-                raise AssertionError(f"MetricEvaluator(period={period}) evaluated at epoch {off}")
+                book(f"MetricEvaluator(period={period}) evaluated at an epoch that is no multiple of the period")
         if A.coin(0.6):
             # an earlier record (epoch 0) taken while the SAME state object held other parameters (training goes on between two evaluations):
             # the record at index 0 must stay that state's value
@@ -388,19 +400,26 @@ def evaluate_through_callback(fn, st, call, n, main_name, main, kw, A):
             want_epochs.append(0)
         me.on_epoch_end(st, A.i(epoch, eforms))   # (last: the eigvals spy of the mixed fidelity keeps the matrix of the last evaluation)
         want_epochs.append(epoch)
-    if len(me) != len(want_epochs) or [int(e) for e in me.epochs] != want_epochs or "m" not in me.last:
-        raise AssertionError(f"MetricEvaluator bookkeeping: records at epochs {[int(e) for e in me.epochs]}, evaluations were due at {want_epochs} "
-                             f"(period {pd}, last epoch handed over as {A.ints.used[-1]})")
+    # the evaluator's bookkeeping (which epochs are recorded, get_value by index) is C17's subject: deviations are informational counters HERE;
+    # C10 only needs the value the metric returned when called the way the evaluator calls it
+    if "m" not in me.last:
+        book("MetricEvaluator did not evaluate at an epoch that is a multiple of its period (metric called directly instead)")
+        return fn(st, **{main_name: main}, **kw)
     last = me.last["m"]
-    if me.get_value("m") is not last:
-        raise AssertionError("MetricEvaluator bookkeeping: get_value() is not the last value")
-    if not same(me.get_value("m", A.i(-1)), last) or not same(me.get_value("m", index=A.i(len(want_epochs) - 1)), last):
-        raise AssertionError("MetricEvaluator.get_value(index of the last record) is not the last value")
-    if v0 is not None:
-        g0 = me.get_value("m", A.i(0)) if A.coin(0.5) else me.get_value("m", index=A.i(0))
-        g0b = me.get_value("m", A.i(-2))
-        if type(g0) is not type(v0) or not (abs(float(g0) - float(v0)) <= 1e-12 * max(1.0, abs(float(v0)))) or not same(g0b, g0):
-            raise AssertionError(f"MetricEvaluator.get_value(index 0) = {g0!r} is not the value recorded first ({v0!r})")
+    try:
+        if len(me) != len(want_epochs) or [int(e) for e in me.epochs] != want_epochs:
+            book("MetricEvaluator records at other epochs than those due")
+        if not same(me.get_value("m"), last):
+            book("MetricEvaluator.get_value() is not the last value")
+        if not same(me.get_value("m", A.i(-1)), last) or not same(me.get_value("m", index=A.i(len(want_epochs) - 1)), last):
+            book("MetricEvaluator.get_value(index of the last record) is not the last value")
+        if v0 is not None:
+            g0 = me.get_value("m", A.i(0)) if A.coin(0.5) else me.get_value("m", index=A.i(0))
+            g0b = me.get_value("m", A.i(-2))
+            if not (abs(float(g0) - float(v0)) <= 1e-12 * max(1.0, abs(float(v0)))) or not same(g0b, g0):
+                book("MetricEvaluator.get_value(index 0) is not the value recorded first")
+    except Exception as e:  # noqa: BLE001  (bookkeeping only)
+        book(f"MetricEvaluator bookkeeping call raised {type(e).__name__}")
     return last
 
 
@@ -539,8 +558,14 @@ def fidelity_case(ctx, case, st=None, A=None):
                                 eig=[[f2b(l.real), f2b(l.imag)] for l in cap["res"]])
             ctx.point("Z", "aux", [Z], unbits([m["Z"]]), case, scale=Z)
             mp = np.array([[unbits(c) for c in rowj] for rowj in m["prod"]])  # N x N x 2
-            ctx.point("fidelity.eigvals_argument", "aux", np.stack([cap["arg"].real, cap["arg"].imag], -1).ravel(), mp.ravel(), case,
-                      scale=float(np.max(np.abs(cap["arg"]))) + 1e-300, sig=sig0 + "/prod")
+            # the matrix handed to eigvals, up to similarity (spec(AB) = spec(BA): the operand order of the product, a transposed or re-ordered
+            # matrix are not constrained): normalised power traces tr((A/s)^k), k = 1..N, of the captured argument vs the model's target * rho / Z
+            Mm = mp[..., 0] + 1j * mp[..., 1]
+            s_ = float(max(np.max(np.abs(cap["arg"])), np.max(np.abs(Mm)))) + 1e-300
+            pt = lambda X: np.array([np.trace(np.linalg.matrix_power(X / s_, k_)) for k_ in range(1, X.shape[0] + 1)])  # noqa: E731
+            pa, pm = pt(cap["arg"]), pt(Mm)
+            ctx.point("fidelity.eigvals_argument (power traces: invariant under similarity / operand order)", "aux", np.stack([pa.real, pa.imag], -1).ravel(),
+                      np.stack([pm.real, pm.imag], -1).ravel(), case, scale=float(N), sig=sig0 + "/prod")
             compare_res(ctx, "fidelity", out, m["res"], case, 1.0, THEOREMS["fid_mixed"], sig0)
         # the external eigenvalues against the characteristic polynomial of the matrix the implementation passed
         A = cap["arg"]
@@ -1003,6 +1028,8 @@ def dispatch(ctx, case):
         ctx.count("case_skipped:constructed_state_unusable")
     finally:
         A.count_into(ctx)
+        while BOOK:
+            ctx.count("info (C17's subject, no verdict here): " + BOOK.pop())
 
 
 def gen_cases(ctx, thorough):
